@@ -136,6 +136,7 @@ structure MidInv (e : QEntry) (rest l : List Nat) (s : St) : Prop where
   nodup : IdsNodup s
   sorted : QSorted s.queue
   ent : ∀ x ∈ s.queue, x.ch ≤ s.h ∧ x.idx ≠ []
+  qra : ∀ x ∈ s.queue, x.ra ∈ s.ras.map (·.id)
   mem : e ∈ s.queue
   suffix : ∃ pre, e.idx = pre ++ l
   due : e.ch + s.p.dispute ≤ s.h
@@ -148,10 +149,14 @@ theorem MidInv.write {e : QEntry} {rest l : List Nat} {s : St} (h : MidInv e res
     (hsub : ∀ e' ∈ q', ∃ e0 ∈ s.queue, e0.ch = e'.ch ∧ e0.ra = e'.ra ∧ ∀ i ∈ e'.idx, i ∈ e0.idx)
     (hother : ∀ ra', ra' ≠ e.ra → flat q' ra' = flat s.queue ra') (hflat : flat q' e.ra = l ++ rest) :
     FinInv { s with queue := q' } := by
-  refine ⟨h.nodup, hs, ?_, ?_⟩
+  refine ⟨h.nodup, hs, ?_, ?_, ?_⟩
   · intro x hx
     obtain ⟨e0, he0, k1, _, _⟩ := hsub x hx
     exact ⟨by rw [← k1]; exact (h.ent e0 he0).1, hne x hx⟩
+  · intro x hx
+    obtain ⟨e0, he0, _, k2, _⟩ := hsub x hx
+    show x.ra ∈ s.ras.map (·.id)
+    rw [← k2]; exact h.qra e0 he0
   · intro r hr
     show RFin q' s.p.dispute r
     by_cases hra : r.id = e.ra
@@ -234,9 +239,10 @@ theorem go_fin (fails : List (Nat × Nat)) (e : QEntry) (rest : List Nat) :
       have hmid : MidInv e rest tl (setRa s0 (finRec r i st s.h)) := by
         have hp : (setRa s0 (finRec r i st s.h)).p = s.p := hfr.p
         have hh : (setRa s0 (finRec r i st s.h)).h = s.h := hfr.h
-        refine ⟨(h.nodup.of_ids (by rw [hfr.ras])).setRa _, by rw [hq]; exact h.sorted, ?_, by rw [hq]; exact h.mem, ?_,
+        refine ⟨(h.nodup.of_ids (by rw [hfr.ras])).setRa _, by rw [hq]; exact h.sorted, ?_, ?_, by rw [hq]; exact h.mem, ?_,
           by rw [hp, hh]; exact h.due, ?_, ?_⟩
         · intro x hx; rw [hq] at hx; rw [hh]; exact h.ent x hx
+        · intro x hx; rw [hq] at hx; rw [setRa_ids, hfr.ras]; exact h.qra x hx
         · obtain ⟨pre, hpre⟩ := h.suffix
           exact ⟨pre ++ [i], by rw [hpre]; simp⟩
         · intro r2 hr2 hne
@@ -285,7 +291,7 @@ theorem MidInv.start {s : St} (hi : FinInv s) {e : QEntry} (he : e ∈ s.queue)
     ∃ rest, flat (qRemove s.queue e.ch e.ra) e.ra = rest ∧
       (∀ l', flat (qRewrite s.queue e.ch e.ra l') e.ra = l' ++ rest) ∧ MidInv e rest e.idx s := by
   obtain ⟨rest, h1, h2, h3⟩ := flat_first_entry s.queue hi.sorted e he hfirst
-  refine ⟨rest, h2, h3, hi.nodup, hi.sorted, hi.ent, he, ⟨[], rfl⟩, hdue, fun r hr _ => hi.ras r hr, ?_⟩
+  refine ⟨rest, h2, h3, hi.nodup, hi.sorted, hi.ent, hi.qra, he, ⟨[], rfl⟩, hdue, fun r hr _ => hi.ras r hr, ?_⟩
   intro r hr hra
   have := hi.ras r hr
   unfold RFin at this
